@@ -570,6 +570,47 @@ static void run_class(CaseCtx& c, const std::string& label, bool cyclic)
     h.report(label);
 }
 
+// A copy carries every stored entry, also one the source does not use at the moment of the copy: the corner element of a
+// tridiagonal solver whose cyclic flag is switched off while it is copied and switched on again afterwards (the flag is a
+// plain attribute; entries and flag may be set in any order).
+static void parked_flag_scenario(CaseCtx& c)
+{
+    Rng& rng = c.rng;
+    const int n = rng.range(3, 12);
+    SymmetricTridiagonalSolver<double> S(n), other(n);
+    S.is_cyclic(true);
+    other.is_cyclic(true);
+    double scale = rng.loguniform(1e-2, 1e2);
+    for (int i = 0; i < n; i++) {
+        S.main_diagonal(i)     = scale * rng.uniform(4.0, 6.0);
+        other.main_diagonal(i) = scale * rng.uniform(4.0, 6.0);
+    }
+    for (int i = 0; i + 1 < n; i++) {
+        S.sub_diagonal(i)     = scale * rng.uniform(-1.0, 1.0);
+        other.sub_diagonal(i) = scale * rng.uniform(-1.0, 1.0);
+    }
+    S.cyclic_corner_element()     = scale * rng.uniform(-1.0, 1.0);
+    other.cyclic_corner_element() = scale * rng.uniform(-1.0, 1.0);
+    const double corner = S.cyclic_corner_element();
+    S.is_cyclic(false); // parked
+    SymmetricTridiagonalSolver<double> cc(S); // copy construction
+    other = S;                                // copy assignment over a live cyclic solver
+    S.is_cyclic(true);
+    cc.is_cyclic(true);
+    other.is_cyclic(true);
+    bool corner_ok = cc.cyclic_corner_element() == corner && other.cyclic_corner_element() == corner && S.cyclic_corner_element() == corner;
+    c.obs.require("copy_carries_unused_entries", corner_ok, "SymmetricTridiagonalSolver/corner-while-flag-off");
+    std::vector<double> b(n), x0, x1, x2, t1(n), t2(n);
+    for (auto& v : b)
+        v = rng.uniform(-1.0, 1.0);
+    x0 = x1 = x2 = b;
+    S.solveInPlace(x0.data(), t1.data(), t2.data());
+    cc.solveInPlace(x1.data(), t1.data(), t2.data());
+    other.solveInPlace(x2.data(), t1.data(), t2.data());
+    bool same = std::memcmp(x0.data(), x1.data(), sizeof(double) * n) == 0 && std::memcmp(x0.data(), x2.data(), sizeof(double) * n) == 0;
+    c.obs.require("copy_carries_unused_entries", same, "SymmetricTridiagonalSolver/solve-after-flag-restored");
+}
+
 static void run_case(CaseCtx& c)
 {
     omp_set_num_threads(1); // the objects are tiny; a thread team would only get in the way of fork()
@@ -605,7 +646,10 @@ static void run_case(CaseCtx& c)
     case 1: run_class<CooAD>(c, labels[k], false); break;
     case 2: run_class<CsrAD>(c, labels[k], false); break;
     case 3: run_class<LuAD>(c, labels[k], false); break;
-    case 4: run_class<TriAD>(c, labels[k], true); break;
+    case 4:
+        parked_flag_scenario(c);
+        run_class<TriAD>(c, labels[k], true);
+        break;
     case 5: run_class<TriAD>(c, labels[k], false); break;
     default: run_class<DiagAD>(c, labels[k], false); break;
     }
